@@ -9,7 +9,9 @@
            -> ( ((0 wsz x<wire>)|(1 class) ..)  ((code x<data> wsz)..)  errclass )
    kind 1  (1 (fsizes I->R..) (fsizes R->I..) (dir region off))   tamper prediction
            -> (hsI hsR deliveredIR errIR deliveredRI errRI)
-   kind 2  (2 x<pubkey bytes>)  -> 0 | 12   (importPublicKey accepts / rejects)
+   kind 2  (2 x<pubkey bytes> variant ..)  -> 0 | 12 | 10
+           variant 0/1: importPublicKey accepts / rejects the key carried by auth / authResp;
+           variant 2: the key replaces the ECIES ephemeral key: invalid point -> 12, valid -> decrypt error 10
    kind 3  (3 code datalen snappy complen) -> (0 fsize wirelen x<header plaintext>) | (1 class) *)
 From GV Require Import Lib.Sx Lib.Bytes Net.Rlpx Net.Aes Keccak.Sponge.
 Local Open Scope N_scope.
@@ -82,8 +84,10 @@ Definition enc_wres (r : rres (list N * N)) : sx :=
   end.
 Definition enc_rmsg (m : msg) : sx :=
   match m with (code, data, wsz) => SL [sn code; SB data; sn wsz] end.
+(* io.EOF vs io.ErrUnexpectedEOF depends on how much an earlier read buffered, i.e. on the
+   capacity Go's append chose (newcap): compared as one class (norm_err) *)
 Definition enc_err (e : option rerr) : sx :=
-  match e with Some e => sn (rerr_code e) | None => SI 0 end.
+  match e with Some e => sn (rerr_code (norm_err e)) | None => SI 0 end.
 
 Fixpoint good_wires (l : list (rres (list N * N))) : list (list N) :=
   match l with
@@ -146,14 +150,17 @@ Definition C44_run (c : sx) : sx :=
           run_session fl aes mac macinit ms et dt ch op a b
       | _, _, _, _, _, _, _, _ => SErr 1
       end
-  | SL [SI 1%Z; fi; fr; SL [dir; region; off]] =>
+  | SL (SI 1%Z :: fi :: fr :: SL [dir; region; off] :: _) =>
       match sx_list_of sx_N fi, sx_list_of sx_N fr, sx_N dir, sx_N region, sx_N off with
       | Some fi, Some fr, Some dir, Some region, Some off => predict fi fr dir region off
       | _, _, _, _, _ => SErr 1
       end
-  | SL [SI 2%Z; SB pk] =>
-      match import_pub_secp pk with Some _ => SI 0 | None => sn (rerr_code EHsInvalidPub) end
-  | SL [SI 3%Z; code; dlen; sn_; clen] =>
+  | SL (SI 2%Z :: SB pk :: SI variant :: _) =>
+      match import_pub_secp pk with
+      | Some _ => if (variant =? 2)%Z then sn (rerr_code EHsDecrypt) else SI 0
+      | None => sn (rerr_code EHsInvalidPub)
+      end
+  | SL (SI 3%Z :: code :: dlen :: sn_ :: clen :: _) =>
       match sx_N code, sx_N dlen, sx_N sn_, sx_N clen with
       | Some code, Some dlen, Some s, Some clen => size_only code dlen s clen
       | _, _, _, _ => SErr 1
